@@ -266,10 +266,11 @@ class SV:
     ``fresh`` is a static ownership flag used by the C09 frame obligations.
     """
 
-    def __init__(self, td: TD, z: z3.ExprRef, fresh: bool = False):
+    def __init__(self, td: TD, z: z3.ExprRef, fresh: bool = False, kind: str | None = None):
         self.td = td
         self.z = z
         self.fresh = fresh
+        self.kind = kind  # for sets of tags: "frozen" (a frozenset), "mutable" (a set) or None (not known statically)
 
     def __repr__(self) -> str:
         return f"SV<{self.td}:{self.z}>"
@@ -420,6 +421,13 @@ def coerce_pair(a: SV, b: SV) -> tuple[SV, SV]:
 
 def coerce_to(v: SV, td: TD) -> SV:
     """Convert ``v`` to type ``td`` (used when storing into fields / passing arguments)."""
+    r = _coerce_to(v, td)
+    if r is not v and getattr(v, "kind", None) is not None and r.kind is None:
+        r.kind = v.kind
+    return r
+
+
+def _coerce_to(v: SV, td: TD) -> SV:
     if v.td.sort == td.sort:
         if isinstance(td, TRefT) and isinstance(v.td, TRefT):
             return v  # keep the more precise static class
